@@ -4,7 +4,7 @@ from play_common import impl_exec, classify, nontrivial  # noqa: F401
 from common import Case
 
 TITLE = 'Only the seat on turn can play, only a card it holds; cards are conserved'
-REQUIRED = ['refused_out_of_turn', 'refused_not_held', 'refusal_changes_nothing', 'conservation', 'no_card_twice',
+REQUIRED = ['refused_out_of_turn', 'refused_not_held', 'accepted_iff', 'accepted_effect', 'refusal_changes_nothing', 'conservation', 'no_card_twice',
             'after_52_all_empty', 'observed_refused_out_of_turn', 'observed_refused_not_held', 'observed_conservation']
 RULE = ('boards played to the end with faults injected at every position with fixed probability: a play by a seat not on '
         'turn (its own card, or the active seat\'s card), the active seat playing a card of another hand, or a card already '
